@@ -34,11 +34,13 @@ package upstream
 // ---- C04: a successful Connect under mustSecure leaves a session that reports itself secure
 // ---- C16: a successful Connect leaves a connection
 //@ func (ups *Socket) Connect
+//@   implements (github.com/bokysan/socketace/v2/internal/client/upstream.Upstream).Connect
 //@   property C05, C04, C16
 //@   ensures err == nil ==> ups.Connection != nil                                                    :connected_means_connection
 //@   property C04, C16
 //@   ensures err == nil && mustSecure ==> sessionOf(ups.Connection) != nil && sessionOf(ups.Connection).Secure()   :required_security_is_met_or_no_session
 //@ func (ups *Http) Connect
+//@   implements (github.com/bokysan/socketace/v2/internal/client/upstream.Upstream).Connect
 //@   property C05, C04, C16
 //@   requires webScheme(ups.Address.Scheme)
 //@   ensures err == nil ==> ups.Connection != nil                                                    :connected_means_connection
@@ -50,11 +52,13 @@ package upstream
 //@   property C04, C16
 //@   ensures err == nil && mustSecure ==> sessionOf(ups.Connection) != nil && sessionOf(ups.Connection).Secure()   :required_security_is_met_or_no_session
 //@ func (ups *Dns) Connect
+//@   implements (github.com/bokysan/socketace/v2/internal/client/upstream.Upstream).Connect
 //@   property C05, C04, C16
 //@   ensures err == nil ==> ups.Connection != nil                                                    :connected_means_connection
 //@   property C04, C16
 //@   ensures err == nil && mustSecure ==> sessionOf(ups.Connection) != nil && sessionOf(ups.Connection).Secure()   :required_security_is_met_or_no_session
 //@ func (ups *InputOutput) Connect
+//@   implements (github.com/bokysan/socketace/v2/internal/client/upstream.Upstream).Connect
 //@   property C04, C16
 //@   ensures err == nil ==> ups.Connection != nil                                                    :connected_means_connection
 //@   ensures err == nil && mustSecure ==> sessionOf(ups.Connection) != nil && sessionOf(ups.Connection).Secure()   :required_security_is_met_or_no_session
@@ -104,3 +108,69 @@ package upstream
 //@   ensures err == nil ==> len(ul.Data) == old(len(ul.Data)) + 1 && ul.Data[len(ul.Data)-1] != nil && upstreamKindMatchesScheme(ul.Data[len(ul.Data)-1])   :appends_the_parsed_upstream_last
 //@   ensures err == nil ==> (forall i :: 0 <= i && i < old(len(ul.Data)) ==> ul.Data[i] == old(ul.Data[i]))                                                  :keeps_the_listed_order
 //@   ensures err != nil ==> spec_sameslice(ul.Data, old(ul.Data))                                                                                              :list_unchanged_on_error
+
+// ===================================================================================================
+// C16: ordered failover over the listed upstreams, reuse of the one physical session, reconnect when lost
+// Interface contract of Upstream.Connect, refined by the five implementations (`implements`): the frame is
+// trusted (an implementation writes its own upstream object, the URL's user info and the TLS settings of the
+// configuration it was handed; everything else it touches is freshly allocated).
+//@ iface (github.com/bokysan/socketace/v2/internal/client/upstream.Upstream).Connect (u Upstream, manager cert.TlsConfig, mustSecure bool) (err error)
+//@   requires upstreamKindMatchesScheme(u)                                                            :upstream_built_by_the_parser
+//@   modifies u.*, heap(net/url.URL.User), heap(crypto/tls.Config.ServerName), heap(crypto/tls.Config.InsecureSkipVerify), G_attempts(u)
+//@   ensures G_attempts(u) == old(G_attempts(u)) + 1                                                  :ghost_counts_the_attempt
+//@   ensures err == nil ==> connOf(u) != nil                                                          :connected_means_connection
+//@   ensures err == nil && mustSecure ==> sessionOf(connOf(u)) != nil && sessionOf(connOf(u)).Secure()   :required_security_is_met_or_no_session
+
+// G_attempts(u): how many times Connect has been invoked on this upstream object (history ghost)
+//@ ghost G_attempts(u interface{}) int
+//@ pred distinctUps(l []Upstream) := forall i, j :: 0 <= i && i < j && j < len(l) ==> !spec_sameref(l[i], l[j])
+//@ pred memberUp(l []Upstream, u Upstream) := exists k :: 0 <= k && k < len(l) && l[k] == u
+//@ pred upstreamsWF(l []Upstream) := forall i :: 0 <= i && i < len(l) ==> l[i] != nil && upstreamKindMatchesScheme(l[i])
+
+//@ func (ul *Upstreams) creteSession
+//@   property C16, C02
+//@   safe
+//@   requires ul.connection != nil
+//@   modifies ul.session, ul.connection, G_closes(ul.connection), G_isclosed(ul.connection)
+//@   callsite smux.Client#1 (config *smux.Config) require config.MaxReceiveBuffer >= 4194304                    :shared_receive_budget_at_least_4MiB
+//@   ensures err == nil ==> ul.session != nil && ul.connection == old(ul.connection)                 :session_over_the_connected_upstream
+//@   ensures err != nil ==> ul.connection == nil                                                      :no_half_open_state
+
+//@ func (ul *Upstreams) open
+//@   property C16, C04
+//@   safe
+//@   requires upstreamsWF(ul.Data) && distinctUps(ul.Data)
+//@   ensures err == nil ==> (forall i :: forall j :: 0 <= i && i < j && j < len(old(ul.Data)) && G_attempts(old(ul.Data)[j]) != old(G_attempts(ul.Data[j])) ==> G_attempts(old(ul.Data)[i]) == old(G_attempts(ul.Data[i])) + 1)    :upstreams_are_tried_in_the_listed_order
+//@   ensures err == nil ==> (forall i :: forall j :: 0 <= i && i < j && j < len(old(ul.Data)) && G_attempts(old(ul.Data)[j]) != old(G_attempts(ul.Data[j])) ==> !spec_sameref(old(ul.Data)[i], ul.connection))    :stops_at_the_first_success
+//@   ensures forall j :: 0 <= j && j < len(old(ul.Data)) ==> G_attempts(old(ul.Data)[j]) == old(G_attempts(ul.Data[j])) || G_attempts(old(ul.Data)[j]) == old(G_attempts(ul.Data[j])) + 1    :each_upstream_tried_at_most_once
+//@   ensures err == nil ==> ul.connection != nil && ul.session != nil                                :connected_with_a_session
+//@   ensures err == nil ==> memberUp(old(ul.Data), ul.connection)                                     :settles_on_a_listed_upstream
+//@   ensures err == nil && old(ul.MustSecure) ==> sessionOf(connOf(ul.connection)) != nil && sessionOf(connOf(ul.connection)).Secure()   :settled_upstream_meets_the_security_requirement
+//@   ensures err != nil ==> ul.connection == nil || ul.connection == old(ul.connection)               :no_connection_on_failure
+//@   loop 1 vars iter int, rng []Upstream
+//@   loop 1 invariant spec_sameslice(rng, old(ul.Data))
+//@   loop 1 invariant forall j :: 0 <= j && j < iter ==> G_attempts(rng[j]) == old(G_attempts(ul.Data[j])) + 1
+//@   loop 1 invariant forall j :: iter <= j && j < len(rng) ==> G_attempts(rng[j]) == old(G_attempts(ul.Data[j]))
+//@   loop 1 invariant forall i, j :: 0 <= i && i < j && j < len(rng) ==> !spec_sameref(rng[i], rng[j])
+//@   loop 1 invariant ul.MustSecure == old(ul.MustSecure)
+//@   loop 1 invariant ul.connection == old(ul.connection)
+//@   loop 1 invariant forall i :: 0 <= i && i < len(rng) ==> rng[i] != nil && upstreamKindMatchesScheme(rng[i])
+
+//@ iface (github.com/bokysan/socketace/v2/internal/util/cert.ConfigGetter).CertManager (c cert.ConfigGetter) (result cert.TlsConfig)
+//@   pure
+//@ ghost G_snap_closed() bool
+// Data invariant of the upstream list (exported to the listener package's contracts): every entry was built by
+// the parser, entries are distinct objects, and a current connection always has its session.
+//@ pred UpstreamsInv(ul *Upstreams) := ul != nil && upstreamsWF(ul.Data) && distinctUps(ul.Data) && (ul.connection != nil ==> ul.session != nil)
+//@ func (ul *Upstreams) Connect
+//@   property C16
+//@   requires config != nil && UpstreamsInv(ul)                                                                 :upstream_list_invariant
+//@   callsite Closed#1 (c bool) assume G_snap_closed() == c "ghost snapshot: the liveness test of the current connection"
+//@   callsite open#1 () require ul.connection == nil && ul.session == nil                                       :reconnects_from_a_clean_state
+//@   callsite open#1 () require old(ul.connection) == nil || G_snap_closed()                                    :a_live_connection_is_reused
+//@   callsite openStream#1 () require ul.session != nil                                                         :streams_only_over_a_session
+
+//@ func (ups *Packet) Connect
+//@   implements (github.com/bokysan/socketace/v2/internal/client/upstream.Upstream).Connect
+//@   property C04, C16
+//@   safe
